@@ -22,7 +22,11 @@ def header_rule(repo, res, schema_attrs, schema_root):
     if crn is None or ph is None:
         raise AnalysisError("_create_root_node / _parse_header missing")
     qn = "CommonRoadSolutionWriter._create_root_node"
-    for label, with_optional, auto in (("all meta data given", True, False), ("no optional meta data", False, False), ("processor name 'auto'", True, True)):
+    import itertools as _it
+
+    for has_date, has_ct, pkind in _it.product((True, False), (True, False), ("given", "none", "auto")):
+        auto = pkind == "auto"
+        label = "date %s, computation time %s, processor name %s" % ("given" if has_date else "None", "given" if has_ct else "None", {"given": "given", "none": "None", "auto": "'auto'"}[pkind])
         bid = _S(Sym("benchmark_id", lang=[(frozenset("abcdefghijklmnopqrstuvwxyzABCDEFGHIJKLMNOPQRSTUVWXYZ0123456789_-:[],"), 1, MAXREP)]))
         fmts = []
 
@@ -31,10 +35,10 @@ def header_rule(repo, res, schema_attrs, schema_root):
             fmts.append(f)
             return Ctor("strftime", {"of": date, "fmt": f}, kind="call")
 
-        date = Obj(None, {"strftime": PyFunc(strftime, "strftime")}, closed=True, label="date") if with_optional else NONE
-        ct = Sym("computation_time", "num") if with_optional else NONE
+        date = Obj(None, {"strftime": PyFunc(strftime, "strftime")}, closed=True, label="date") if has_date else NONE
+        ct = Sym("computation_time", "num") if has_ct else NONE
         cpu = _S(Sym("cpu_name", lang=[(frozenset("abcdefghijklmnopqrstuvwxyz"), 1, MAXREP)]))
-        pname = Str.lit("auto") if auto else (Str.lit("Intel(R) Core(TM) i7-8650U CPU @ 1.90GHz") if with_optional else NONE)
+        pname = Str.lit("auto") if auto else (Str.lit("Intel(R) Core(TM) i7-8650U CPU @ 1.90GHz") if pkind == "given" else NONE)
         s_obj = Obj(sol, {"benchmark_id": bid, "date": date, "_date": date, "computation_time": ct, "_computation_time": ct, "processor_name": pname, "_processor_name": pname}, label="solution")
         ev = Ev(repo)
         ev.pure_modules = {"np", "numpy", "math"}
@@ -49,10 +53,12 @@ def header_rule(repo, res, schema_attrs, schema_root):
                 if tag != schema_root:
                     bad.append("root element <%s>, the schema's is <%s>" % (tag, schema_root))
                 names = sorted(k for k in root.attrib.d)
-                want = sorted(schema_attrs) if with_optional else ["benchmark_id"]
+                want = sorted(["benchmark_id"] + (["date"] if has_date else []) + (["computation_time"] if has_ct else []) + (["processor_name"] if pkind != "none" else []))
+                if not set(want) <= set(schema_attrs):
+                    bad.append("the schema's attributes are %s" % sorted(schema_attrs))
                 if names != want:
                     bad.append("attributes %s, expected %s" % (names, want))
-                if with_optional and fmts and not all(isinstance(f, Str) and f.is_lit() and all(x in f.text() for x in ("%Y", "%m", "%d", "%H", "%M", "%S")) for f in fmts):
+                if has_date and fmts and not all(isinstance(f, Str) and f.is_lit() and all(x in f.text() for x in ("%Y", "%m", "%d", "%H", "%M", "%S")) for f in fmts):
                     bad.append("date written with format %s: not to the second" % [show(f) for f in fmts])
                 ev2 = Ev(repo)
                 ev2.pure_modules = {"np", "numpy", "math"}
@@ -64,7 +70,8 @@ def header_rule(repo, res, schema_attrs, schema_root):
         except _Raise as x:
             bad.append("raises %s" % x.what)
         except Undecided as x:
-            raise AnalysisError("%s [%s]: %s" % (qn, label, x))
+            res.refuse("%s [%s]: %s" % (qn, label, x))
+            continue
         res.check("TAB-XSD", "header [%s]: root element and attributes follow the schema and are read back unchanged" % label, not bad, wr.mod, crn, "solution header [%s]: %s" % (label, "; ".join(bad[:3])), "meta data is written under a name the reader (or the schema) does not know, is dropped, or does not come back as written (date to the second, computation time exactly)", qualname=qn)
 
 
@@ -133,7 +140,8 @@ def trajectory_rule(repo, res):
         except _Raise as x:
             bad.append("raises %s" % x.what)
         except Undecided as x:
-            raise AnalysisError("%s [%s]: %s" % (qn, tt.name, x))
+            res.refuse("%s [%s]: %s" % (qn, tt.name, x))
+            continue
         res.check("NUMFMT", "trajectory node [%s]: tag, planning problem id and states (in time order) are read back" % tt.name, not bad, wr.mod, ctn, "trajectory node [%s]: %s" % (tt.name, "; ".join(bad[:3])), "planning-problem id, trajectory type or the states of a trajectory do not survive writing and reading", qualname=qn)
 
 
@@ -187,7 +195,8 @@ def state_rule(repo, res):
         except _Raise as x:
             bad.append("raises %s" % x.what)
         except Undecided as x:
-            raise AnalysisError("%s [%s]: %s" % (qn, st.name, x))
+            res.refuse("%s [%s]: %s" % (qn, st.name, x))
+            continue
         res.check("TAB-CLASS", "state [%s]: every field written is read back into the same field, unchanged" % st.name, not bad, wr.mod, csn, "state [%s]: %s" % (st.name, "; ".join(bad[:3])), "a state value does not survive writing and reading (paired with another field, dropped, or converted)", qualname=qn)
 
 
@@ -269,10 +278,13 @@ def number_text_rule(repo, res, RULE="NUMFMT"):
     if fn is None:
         raise AnalysisError("CommonRoadSolutionWriter._create_sub_element missing")
     qn = "CommonRoadSolutionWriter._create_sub_element"
-    for kind in ("float", "int"):
+    for kind, exponent in (("float", False), ("float", True), ("int", False)):
         v = Sym("value", kind)
         ev = Ev(repo)
         ev.pure_modules = {"math"}
+        # whether the text of the value holds a given character is a property of the case (a float printed with an
+        # exponent, or without)
+        ev.oracle = lambda k, a, b, exponent=exponent: (exponent if a.text() in ("e", "E", "e-", "e+") else False if a.text() in ("inf", "nan", "n", "i") else None) if k == "In" and isinstance(a, Str) and a.is_lit() and isinstance(b, Str) and [p[0] for p in b.pieces] == ["sym"] else None
         ident = lambda a, k: a[0]
         for f in ("float64", "float_", "double", "asarray"):
             ev.model_calls["np.%s" % f] = ev.model_calls["numpy.%s" % f] = ident
@@ -288,4 +300,5 @@ def number_text_rule(repo, res, RULE="NUMFMT"):
             bad = "raises %s" % x.what
         except Undecided as x:
             raise AnalysisError("%s [%s value]: %s" % (qn, kind, x))
+        kind = kind + (" printed with an exponent" if exponent else "")
         res.check(RULE, "%s [%s value]: the text is the shortest round-trip text of the value" % (qn, kind), bad is None, wr.mod, fn, "%s [%s value] %s" % (qn, kind, bad), "values are rounded or formatted with limited precision: read-back values are not bit-identical", qualname=qn)
